@@ -113,7 +113,11 @@ class Gen:
             elif va != '...':
                 out.append(vname)
             else:
-                out.append('__VA_OPT__ ( %s ) %s' % (ch.choice([',', 'x y', '+', ''] + (['%s +' % params[0], '# %s' % params[0]] if params else [])), vname)); self.feat.add('__VA_OPT__')
+                # the variable argument after __VA_OPT__ also as the operand of #: it must be spelled unexpanded although __VA_OPT__ had it expanded
+                tail = ch.choice([vname, vname, '# ' + vname, '%s # %s' % (vname, vname)])
+                if '#' in tail:
+                    has_hash = True; self.feat.add('#va'); self.feat.add('__VA_OPT__+#va')
+                out.append('__VA_OPT__ ( %s ) %s' % (ch.choice([',', 'x y', '+', ''] + (['%s +' % params[0], '# %s' % params[0]] if params else [])), tail)); self.feat.add('__VA_OPT__')
         s = ''
         for t in out:
             s += t + ch.choice([' ', ' ', '  '])
